@@ -32,7 +32,7 @@
    last ending one or two bytes (the line end) before the returned offset. *)
 From Sipsp Require Import Harness Framing Resume SafeMore SafeMsg Layout FLineConv TrimSpec SigCoherent LowerBound.
 From Sipsp Require Import Tables.
-From Sipsp Require Import CSeqNest NameAddrNest NameAddrTag NameAddrTrim LeafTrim NameAddrPos ContactTrim UpperBound NestMsg.
+From Sipsp Require Import CSeqNest NameAddrNest NameAddrTag NameAddrTrim LeafTrim NameAddrPos ContactTrim UpperBound NestMsg TrimMsg.
 
 Theorem C05_body_and_raw_message : forall m h e,
   pf_end (m_body (finished m h e)) = h + (e - h) /\
@@ -220,6 +220,13 @@ Proof. exact pais_span_trimmed. Qed.
 Theorem C05_nameaddr_value_not_empty : forall h pre rest i o e v, i = nnat (length pre) -> run (fb_iter h) pre rest i 0 pfrom0 = Done o e v ->
   e = EOk \/ e = EMoreValues -> pl (fb_v v) <> 0.
 Proof. exact (fun h pre rest i o e v Hi H He => proj2 (fb_fresh_vtb h pre rest i o e v Hi H He)). Qed.
+(* ---- at message level: the value of EVERY stored header - generic or one of the eight specially parsed kinds - is trimmed ---------------------- *)
+Theorem C05_message_stored_values_trimmed : forall flags B offs bl n nc o s o' e m', testbit flags bSIPMsgNoMoreData = false -> offs <= nnat (length B) ->
+  feeds flags B offs (msg_init bl (repeat hdr0 n) (repeat pfrom0 nc)) o s ->
+  parse_sipmsg flags B o s = Done o' e m' -> m_state m' = MFIN \/ m_state m' = MNoCLen ->
+  forall j, (j < N.to_nat (hl_n (hs_l (m_hs m'))))%nat -> (j < length (hl_hdrs (hs_l (m_hs m'))))%nat ->
+    trimmed B (h_val (nth j (hl_hdrs (hs_l (m_hs m'))) hdr0)).
+Proof. exact message_values_trimmed_fed. Qed.
 Theorem C05_leaf_schedules_mean : forall buf' o,
   (forall s', ci_fed buf' o s' <-> (s' = callid0 /\ o <= nnat (length buf')) \/
      exists buf offs s, ci_fed buf offs s /\ parse_callid buf offs s = Done o EMore s' /\ firstn (N.to_nat o) buf' = firstn (N.to_nat o) buf /\ o <= nnat (length buf')) /\
@@ -271,6 +278,7 @@ Print Assumptions C05_callid_value_trimmed.
 Print Assumptions C05_uint_value_trimmed.
 Print Assumptions C05_cseq_value_trimmed.
 Print Assumptions C05_contact_span_trimmed.
+Print Assumptions C05_message_stored_values_trimmed.
 Print Assumptions C05_pai_span_trimmed.
 Print Assumptions C05_message_subfields_nest.
 Print Assumptions C05_message_subfields_nest_fed.
